@@ -151,6 +151,40 @@ fn check_conversions(text: &[u8], specs: &[ChannelSpec]) -> CheckResult {
             Ok(v) => v,
             Err(e) => fail!("spec-iteration", "{:?}: {e}", show(text)),
         };
+        // the iterator's other entry points (overridable Iterator methods and the adaptors built on
+        // them) yield the same dimension values as repeated next()
+        if vals.len() <= 16 {
+            let n = vals.len();
+            let ok = |r: Option<Result<isize, _>>, i: usize| -> bool { matches!((r, vals.get(i)), (Some(Ok(x)), Some(w)) if x as i64 == *w) || (matches!(r, None) && i >= n) };
+            ensure!((*s).into_iter().count() == n && (*s).len() == n, "spec-iterator-law", "{:?}: spec {vals:?}: count() / len() disagree with iteration", show(text));
+            ensure!(ok((*s).into_iter().last(), n.wrapping_sub(1)) || n == 0, "spec-iterator-law", "{:?}: spec {vals:?}: last() differs", show(text));
+            for taken in 0..=n.min(3) {
+                for k in 0..=n {
+                    let mut it = (*s).into_iter();
+                    for _ in 0..taken {
+                        let _ = it.next();
+                    }
+                    let r = it.nth(k);
+                    ensure!(ok(r, taken + k), "spec-iterator-law", "{:?}: spec {vals:?}: nth({k}) after {taken} next() gave {r:?}", show(text));
+                    let r2 = it.next();
+                    ensure!(ok(r2, taken + k + 1), "spec-iterator-law", "{:?}: spec {vals:?}: next() after nth({k}) after {taken} next() gave {r2:?}", show(text));
+                }
+                let mut it = (*s).into_iter();
+                for _ in 0..taken {
+                    let _ = it.next();
+                }
+                let stepped: Vec<i64> = it.step_by(2).filter_map(|r| r.ok()).map(|x| x as i64).collect();
+                let want: Vec<i64> = vals.iter().skip(taken).step_by(2).copied().collect();
+                ensure!(stepped == want, "spec-iterator-law", "{:?}: spec {vals:?}: step_by(2) after {taken} next() gave {stepped:?}", show(text));
+                let mut it = (*s).into_iter();
+                for _ in 0..taken {
+                    let _ = it.next();
+                }
+                let skipped: Vec<i64> = it.skip(1).filter_map(|r| r.ok()).map(|x| x as i64).collect();
+                let want: Vec<i64> = vals.iter().skip(taken + 1).copied().collect();
+                ensure!(skipped == want, "spec-iterator-law", "{:?}: spec {vals:?}: skip(1) after {taken} next() gave {skipped:?}", show(text));
+            }
+        }
         let nonneg = vals.iter().all(|v| *v >= 0);
         let r1: Result<isize, _> = (*s).try_into();
         let r1u: Result<usize, _> = (*s).try_into();
